@@ -48,13 +48,14 @@ instance (T : List (Triple β)) : Decidable (Acyclic1 T) := by unfold Acyclic1; 
 /-- `a` references `c`: some triple has subject `a` and object `c` -/
 def Edge (T : List (Triple β)) (a c : β) : Prop := ∃ p, (⟨Term.bnode a, p, Term.bnode c⟩ : Triple β) ∈ T
 
-/-- `c₀ → c₁ → … → cₙ` along `Edge` -/
+/-- each node of the list is referenced by the next one: `c₀ ← c₁ ← … ← cₙ` along `Edge` -/
 def Walk (T : List (Triple β)) : List β → Prop
   | [] => True
   | [_] => True
-  | a :: c :: rest => Edge T a c ∧ Walk T (c :: rest)
+  | a :: c :: rest => Edge T c a ∧ Walk T (c :: rest)
 
-/-- a non-empty closed walk all of whose nodes are referenced exactly once -/
+/-- a non-empty closed walk all of whose nodes are referenced exactly once: `c = [c₀,…,cₙ]`,
+    `cᵢ₊₁` references `cᵢ`, and `c₀` references `cₙ` -/
 def Cycle1 (T : List (Triple β)) (c : List β) : Prop :=
   ∃ a rest, c = a :: rest ∧ (∀ b ∈ c, refs T b = 1) ∧ Walk T (c ++ [a])
 
